@@ -5,15 +5,10 @@ V = os.path.dirname(os.path.dirname(os.path.abspath(__file__)))
 
 CLAIMED = {
     'C15': dict(
-        technique='Lean 4 proof over ordered fields of translator-generated prox kernels + bit-exact Float correspondence + exact-rational monitors',
+        technique='Lean 4 proof over ordered fields (complex l1: with a lawful sqrt, real instance given) of translator-generated prox kernels + bit-exact Float correspondence (nuclear norm: on the SVD logged from the real run) + exact-rational / independent-SVD monitors',
         category='proof',
-        text='Theorems (Props/C15.lean) for the kernels regenerated from the C++ on every run: box projection '
-             'step, soft-threshold, box+l1 step are the unique/variational minimisers, p = out - in, inactive-index '
-             'test <-> locally identity shift, multiplier clamp; tied to the code by the translator (componentwise '
-             'expressions) and by bit-exact correspondence for the hand-modelled parts. Partial: complex l1 and '
-             'nuclear norm are not modelled.',
-        note='Lean kernel + Mathlib; translator gen/*.py; hand models tied only on explored inputs; real-number '
-             'semantics (no IEEE rounding in theorems); Eigen cwiseMax/Min = std::max/min.',
+        text='Theorems (Props/C15.lean) for kernels regenerated from the C++ on every run: box projection, soft-threshold (scalar / vector weights), box+l1 step are the unique / variational minimisers, componentwise and lifted to vectors (proxGradStep_vector_is_prox, returns h, p = out - in, ProxMapsIntoBox in the form the loop theorems consume); inactive-index list <-> locally identity shift for box-only and general l1 (all l1_reg sizes, zero weights); multiplier clamp; complex l1 soft_thres lambdas: strong optimality, uniqueness, tie, returned value. Nuclear norm PARTIAL (nuclear_prox_partial): thresholded singular values minimise the separable problem, value, rank = #sigma_i > lambda gamma, truncated = full reconstruction - that U Sigma\' V^T is the matrix prox rests on the BDCSVD contract + von Neumann trace inequality (not proved; monitored against an independent SVD). Two defects found by this check were repaired in /repo (L1NormComplex::prox did not compile; NuclearNorm(lambda) read empty U / V with Eigen 3.4.0); open finding: complex l1 overflow / underflow of squared magnitudes.',
+        note='Lean kernel + Mathlib; translator gen/gen_c15.py (16 regions, complex-number semantics of the translator); hand models tied only on explored inputs; Eigen lazy-product order; h of L1NormComplex compared to a few ulps (hypot); nuclear monitor uses a pure-Python Jacobi SVD; empty matrices excluded (Eigen precondition); real-number semantics.',
         design='§6 C15'),
     'C06': dict(
         technique='Lean 4 proof about the translator-generated status chain / stopping criteria (any carrier, IEEE semantics via XR) + bit-exact correspondence + monitors',
@@ -53,7 +48,7 @@ CLAIMED = {
     'C01': dict(
         technique='Lean 4 proof (normal-cone certificate of the forward-backward step, any dimension / finite-infinite-equal bounds) composed with the C03/C04/C06/C07 theorems + exact-rational KKT monitors on the real ALMSolver over all ten stacks',
         category='proof',
-        text='Props/C01.lean: the projected-gradient step exhibits a normal-cone element; if the generated ApproxKKT criterion of the final iterate is <= tol then every coordinate of -grad L(x_hat, y_hat) is within tol of N_C(x_hat) (Certified), feasibility of x_hat; composed with C03 (write-back), C04 (y_hat / err_z closed forms), C06 (Converged iff eps <= tol), C07 (ALM termination test). The end-to-end statement is monitored on the real ALMSolver (PANOC/ZeroFPR x 4 directions, PANTR, FISTA): on Converged the three KKT residuals are recomputed in exact rationals from f, grad f, g, grad g*y, C, D alone and compared with compute_kkt_error.',
+        text='Props/C01.lean: the projected-gradient step exhibits a normal-cone element; if the generated ApproxKKT criterion of the final iterate is <= tol then every coordinate of -grad L(x_hat, y_hat) is within tol of N_C(x_hat) (Certified), feasibility of x_hat; composed with C03 (write-back), C04 (y_hat / err_z closed forms), C06 (Converged iff eps <= tol), C07 (ALM termination test). Props/C01_Alm.lean carries the composition as theorems over the C07 ALM loop model: alm_converged_certifies_kkt / alm_m0_converged_certifies_kkt (for every inner solver satisfying the InnerContract - exit contract of C03 + residual meaning of C06 - a Converged ALM result is feasible, its multipliers are the y_hat of the returned x, every stationarity coordinate is within tolerance of the normal cone and the constraint violation is within dual_tolerance), with the contract discharged for the PANOC loop model (panoc_satisfies_inner_contract_partial: ApproxKKT criterion, non-eager exit) and for a one-step reference inner solver (non-vacuity). The end-to-end statement is also monitored on the real ALMSolver (PANOC/ZeroFPR x 4 directions, PANTR, FISTA): on Converged the three KKT residuals are recomputed in exact rationals from f, grad f, g, grad g*y, C, D alone and compared with compute_kkt_error.',
         note='Lean kernel + Mathlib; translators gen_c15/gen_c06; real-number semantics, binary64 rounding gap measured by the monitor (margin ~1e-9 x gradient scale); the composition relies on the separately tied models of C03/C04/C06/C07.',
         design='§6 C01'),
     'C11': dict(
@@ -119,6 +114,9 @@ CLAIMED = {
 }
 
 NOT_YET = {
+    'C02': 'machine-checked proof applies (distance bound from strong convexity + convergence monitors); model, theorems and check are being finished (checks/c02.py) - listed here until they pass on the unchanged tree',
+    'C05': 'model, theorems and check exist for PANOC (checks/c05.py, Props/C05*.lean); withheld until the check exercises ZeroFPR, PANTR and PANOC-OCP as the property quantifies over them',
+    'C19': 'model, theorems and check exist for PANOC (checks/c19.py, Props/C19_*.lean); withheld until the stop-injection sweeps cover every inner solver and the ALM wrapper as the property quantifies over them',
 }
 
 def main():
